@@ -170,6 +170,11 @@ def stepTags : Option Dep → List Step → List (Out StepOut) → List String
     t :: stepTags o.dep ss os
   | _, _, _ => []
 
+/-- some complete `Finalize` of the implementation's walk met an unclaimed, paused or parked Deployment -/
+def anyUnclaimedStep : Option Dep → List Step → List (Out StepOut) → Bool
+  | d, s :: ss, .val o :: os => guardUnclaimedStep s d || anyUnclaimedStep o.dep ss os
+  | _, _, _ => false
+
 def handle : Handler := fun op inp impl => do
   match op with
   | "walk" =>
@@ -196,6 +201,7 @@ def handle : Handler := fun op inp impl => do
       (if wrote then [] else ["nowrite"]) ++
       (if steps.isEmpty then ["trivial"] else []) ++
       (stepTags d0 steps outs).eraseDups ++
+      (if anyUnclaimedStep d0 steps outs then ["guard:unclaimedFinalizeStep"] else []) ++
       (if (steps.zip steps.tail).any (fun (a, b) => sameCall a b) then ["repeat"] else [])
     -- oracles on the implementation's snapshots
     let stepH := walkOracles rel d0 steps outs
